@@ -530,6 +530,8 @@ class FnTr:
             return f"(Py.mpf_ R prec {A[0]})"
         if n == 'mpmath.sqrt' and len(A) == 1:
             return f"(Py.mp_sqrt R prec {A[0]})"
+        if n in ('isclose', 'math.isclose') and len(A) == 2:   # `from math import isclose`, default tolerances
+            return f"(Py.Val.bool_ (Py.isclose R {A[0]} {A[1]}))"
         if n in ('sqrt', 'math.sqrt') and len(A) == 1:      # `from math import sqrt`: binary64, correctly rounded
             return f"(Py.math_sqrt R {A[0]})"
         raise Unsupported(f"call {n}")
@@ -1246,6 +1248,7 @@ FUNCTIONS = [
     ('plot_utils.py', 'dotProductXY'),
     ('plot_utils.py', 'position_scale'),
     ('plot_utils.py', 'points_near'),
+    ('plot_utils.py', 'points_equal'),
     ('plot_utils.py', 'vInitial_VF_A_Dx'),
     ('plot_utils.py', 'vFinal_Vi_A_Dx'),
 ]
